@@ -757,6 +757,7 @@ func main() {
 	run = vlib.NewRun("C06", "model_checking")
 	// phases whose enumeration does not depend on choice points inside relic come first
 	run.Phase("rotation", rotationPhase)
+	run.Phase("identity", identityPhase)
 	run.Phase("broker", brokerPhase)
 	run.Phase("faults", faultPhase)
 	run.Phase("schedules", schedPhase)
@@ -764,7 +765,7 @@ func main() {
 	var keys []string
 	_ = keys
 	sort.Strings(keys)
-	run.Rule("(a) every history of <=3 requests from {sign rsaA/sha256, sign p256A/sha384, refused request} x sink configuration {file, file in missing directory, file+refusing broker, none} x every combination of <=2 (thorough 4) faults over the audit-file operations (open: EACCES/EISDIR/ENOSPC; write: ENOSPC/EIO/half-written; close: EIO); (b) every interleaving with <=3 preemptions for 2 threads and <=2 for 3 threads (thorough: 4 and 3) of concurrent /sign handlers over hooked mutex, token and audit-file operations; (c) the standalone pipeline x all open/write faults; (d) every history of <=2 requests x {broker only, broker + file} x every choice of what a loopback AMQP broker does with each publisher connection (ack, nack, TCP / channel / connection torn down between publish and confirm, dropped at the handshake, exchange.declare refused, confirmed then dropped); (e) every sequence of <=2 environment events {nothing, audit file deleted, audit directory removed, file renamed away} between 2-3 sign requests on one server. states = executions, transitions = choice points. distinct_nontrivial = executions with at least one fault / preemption")
+	run.Rule("(a) every history of <=3 requests from {sign rsaA/sha256, sign p256A/sha384, refused request} x sink configuration {file, file in missing directory, file+refusing broker, none} x every combination of <=2 (thorough 4) faults over the audit-file operations (open: EACCES/EISDIR/ENOSPC; write: ENOSPC/EIO/half-written; close: EIO); (b) every interleaving with <=3 preemptions for 2 threads and <=2 for 3 threads (thorough: 4 and 3) of concurrent /sign handlers over hooked mutex, token and audit-file operations; (c) the standalone pipeline x all open/write faults; (d) every history of <=2 requests x {broker only, broker + file} x every choice of what a loopback AMQP broker does with each publisher connection (ack, nack, TCP / channel / connection torn down between publish and confirm, dropped at the handshake, exchange.declare refused, confirmed then dropped); (e) every sequence of <=2 environment events {nothing, audit file deleted, audit directory removed, file renamed away} between 2-3 sign requests on one server; (f) every history of <=3 sign requests x 6 client identities (by fingerprint; issued by either of two configured client CAs, colliding pairwise on public key, subject and issuer) on one server, each record compared with the same request alone on a fresh server. states = executions, transitions = choice points. distinct_nontrivial = executions with at least one fault / preemption")
 	run.Assume("the audit file is an in-memory file with kernel O_APPEND semantics (atomic positioned append) and per-descriptor offsets otherwise")
 	run.Assume("a half-written record caused by an injected short write ends the history (the file is then no longer line-structured through no fault of relic)")
 	run.Assume("AMQP: the broker is verif/amqpfake (protocol frames written from the 0-9-1 specification, checked against relic's own publisher in amqpfake_test.go); a broker that accepts the publish and then stays silent forever is not in the alphabet (the publisher has no timeout: that history never ends)")
